@@ -433,3 +433,205 @@ Proof.
       rewrite Lf in L. rewrite marker_len in Small. lia.
   - rewrite D. eexists. split; [reflexivity|apply SR].
 Qed.
+
+(* ------------------------------------------------------------------ *)
+(* reader operations do not look at the allocation counter             *)
+
+Lemma same_rest_refl r : same_rest r r. Proof. repeat split. Qed.
+Lemma same_rest_trans a b c : same_rest a b -> same_rest b c -> same_rest a c.
+Proof. intros (A1 & A2 & A3 & A4) (B1 & B2 & B3 & B4). repeat split; congruence. Qed.
+Lemma same_rest_sym a b : same_rest a b -> same_rest b a.
+Proof. intros (A1 & A2 & A3 & A4). repeat split; congruence. Qed.
+
+Definition cong {A} (x y : reader * mres A) : Prop := same_rest (fst x) (fst y) /\ snd x = snd y.
+
+Lemma ensure_cong r r' n : same_rest r r' -> cong (ensure r n) (ensure r' n).
+Proof.
+  intros (A1 & A2 & A3 & A4). unfold ensure. rewrite A1, A2, A3, A4.
+  destruct (ensure_loop _ _ _ _) as [[[b e] fs]|]; [|split; [repeat split; auto|reflexivity]].
+  destruct (short_of b n); split; try reflexivity; repeat split.
+Qed.
+
+Lemma take_cong r r' n : same_rest r r' -> same_rest (fst (take r n)) (fst (take r' n)) /\ snd (take r n) = snd (take r' n).
+Proof. intros (A1 & A2 & A3 & A4). unfold take. cbn. rewrite A1. repeat split; auto. Qed.
+
+Lemma get_raw_cong r r' n : same_rest r r' -> cong (get_raw r n) (get_raw r' n).
+Proof.
+  intro H. unfold get_raw. destruct (ensure_cong r r' (Z.of_N n) H) as [E1 E2].
+  destruct (ensure r (Z.of_N n)) as [a [u|e|]], (ensure r' (Z.of_N n)) as [a' [u'|e'|]]; cbn [fst snd] in *; try discriminate.
+  - destruct (take_cong a a' n E1) as [T1 T2]. destruct (take a n), (take a' n). cbn [fst snd] in *. subst. split; auto.
+  - inversion E2; subst. split; auto.
+  - split; auto.
+Qed.
+
+Lemma map_res_cong {A B} (f : A -> B) x y : cong x y -> cong (map_res f x) (map_res f y).
+Proof. destruct x as [r [a|e|]], y as [r' [a'|e'|]]; unfold cong; cbn; intros [H1 H2]; try discriminate; split; auto; congruence. Qed.
+
+Lemma get_int_cong r r' : same_rest r r' -> cong (get_int r) (get_int r').
+Proof.
+  intro H. unfold get_int. pose proof (get_raw_cong r r' 8 H) as [E1 E2].
+  destruct (get_raw r 8) as [a [u|e|]], (get_raw r' 8) as [a' [u'|e'|]]; cbn [fst snd] in *; try discriminate;
+    split; cbn; auto; congruence.
+Qed.
+
+Lemma get_lstr_cong r r' : same_rest r r' -> cong (get_lstr r) (get_lstr r').
+Proof.
+  intro H. unfold get_lstr, get_int32.
+  pose proof (map_res_cong wrap32 _ _ (get_int_cong r r' H)) as [E1 E2].
+  destruct (map_res wrap32 (get_int r)) as [a [len|e|]], (map_res wrap32 (get_int r')) as [a' [len'|e'|]];
+    cbn [fst snd] in *; try discriminate; [|inversion E2; subst; split; auto|split; auto].
+  inversion E2; subst len'. destruct (len <? 0)%Z; [split; auto|].
+  destruct (ensure_cong a a' len E1) as [F1 F2].
+  destruct (ensure a len) as [b [u|e|]], (ensure a' len) as [b' [u'|e'|]]; cbn [fst snd] in *; try discriminate.
+  - destruct (take_cong b b' (Z.to_N len) F1) as [T1 T2]. destruct (take b _), (take b' _). cbn [fst snd] in *. subst. split; auto.
+  - inversion F2; subst. split; auto.
+  - split; auto.
+Qed.
+
+Lemma get_cstr_loop_cong fuel : forall r r' acc, same_rest r r' -> cong (get_cstr_loop fuel r acc) (get_cstr_loop fuel r' acc).
+Proof.
+  induction fuel as [|f IH]; intros r r' acc H; cbn [get_cstr_loop]; [split; auto|].
+  destruct (ensure_cong r r' 1 H) as [E1 E2].
+  destruct (ensure r 1) as [a [u|e|]], (ensure r' 1) as [a' [u'|e'|]]; cbn [fst snd] in *; try discriminate.
+  - pose proof E1 as (B1 & B2 & B3 & B4). rewrite <- B1.
+    destruct (r_buf a) as [|b rest]; [split; auto|].
+    assert (S : same_rest (set_buf a rest) (set_buf a' rest)) by (repeat split; auto).
+    destruct (byte_eqb b x00); [split; auto|]. apply IH. exact S.
+  - inversion E2; subst e'. destruct e; split; auto.
+  - split; auto.
+Qed.
+
+Lemma total_bytes_cong r r' : same_rest r r' -> total_bytes r = total_bytes r'.
+Proof. intros (A1 & A2 & _). unfold total_bytes. rewrite A1, A2. reflexivity. Qed.
+
+Lemma get_string_cong enc r r' : same_rest r r' -> cong (get_string enc r) (get_string enc r').
+Proof.
+  intro H. unfold get_string. destruct enc; [apply get_lstr_cong; exact H|].
+  unfold get_cstr. rewrite (total_bytes_cong _ _ H). apply get_cstr_loop_cong. exact H.
+Qed.
+
+(* one string, either mode, readers that agree on what is unread *)
+Lemma string_same enc r r' r1 s : same_rest r r' -> get_string enc r = (r1, MOk s) ->
+  (exists r1', skip_string_marker enc r' = (r1', MOk (bytes_eqb s secret_marker)) /\ same_rest r1 r1') /\
+  (exists r1'', skip_string enc r' = (r1'', MOk tt) /\ same_rest r1 r1'').
+Proof.
+  intros H G. destruct (get_string_cong enc r r' H) as [C1 C2]. rewrite G in C1, C2. cbn [fst snd] in *.
+  destruct (get_string enc r') as [rx x] eqn:G'. cbn [fst snd] in *. subst x.
+  destruct enc.
+  - destruct (lstr_same r' rx s G') as ((a & A1 & A2) & (b & B1 & B2)).
+    split; [exists a|exists b]; (split; [assumption|eapply same_rest_trans; eassumption]).
+  - destruct (plain_string_same r') as (P1 & P2 & P3 & P4 & P5). rewrite G' in *. cbn [fst snd] in *.
+    destruct (skip_string_marker false r') as [a x] eqn:S1. destruct (skip_string false r') as [b y] eqn:S2.
+    cbn [fst snd] in *. subst a b. pose proof (P5 s eq_refl) as Px. subst x.
+    destruct y as [[]| |]; try contradiction.
+    split; eexists; (split; [reflexivity|exact C1]).
+Qed.
+
+(* ------------------------------------------------------------------ *)
+(* every stream state: GetClassAdRaw vs SkipClassAdRaw                 *)
+
+Definition tsame (t t' : treader) : Prop :=
+  same_rest (t_r t) (t_r t') /\ t_tags t = t_tags t' /\ t_key t = t_key t' /\ t_enc t = t_enc t' /\ t_saved t = t_saved t'.
+
+Lemma tsame_refl t : tsame t t. Proof. repeat split. Qed.
+
+Lemma t_step_rel {A B} (f : reader -> reader * mres A) (g : reader -> reader * mres B) t t' :
+  tsame t t' -> same_rest (fst (f (t_r t))) (fst (g (t_r t'))) ->
+  tsame (fst (t_step f t)) (fst (t_step g t')) /\
+  ((snd (t_step f t) = snd (f (t_r t)) /\ snd (t_step g t') = snd (g (t_r t'))) \/
+   (snd (t_step f t) = MErr MConn /\ snd (t_step g t') = MErr MConn)).
+Proof.
+  intros (S0 & T & K & E & V) S1. unfold t_step, t_sealed.
+  destruct (f (t_r t)) as [r1 x], (g (t_r t')) as [r1' y]. cbn [fst snd] in *.
+  destruct S0 as (_ & I0 & _ & _). pose proof S1 as (_ & I1 & _ & _).
+  rewrite <- I0, <- I1, <- T, <- K, <- E.
+  destruct (forallb _ _); cbn [fst snd]; (split; [repeat split; cbn; auto; try apply S1|]); auto.
+Qed.
+
+Lemma t_string_rel t t' t1 s : tsame t t' -> t_get_string t = (t1, MOk s) ->
+  (exists t1', t_skip_string t' = (t1', MOk (bytes_eqb s secret_marker)) /\ tsame t1 t1') /\
+  (exists t1'', t_skip_plain t' = (t1'', MOk tt) /\ tsame t1 t1'').
+Proof.
+  intros H G. pose proof H as (S0 & _ & _ & E & _).
+  unfold t_get_string, t_skip_string, t_skip_plain in *. rewrite <- E.
+  destruct (get_string (t_enc t) (t_r t)) as [r1 x] eqn:GS.
+  assert (X : x = MOk s /\ t1 = fst (t_step (get_string (t_enc t)) t)).
+  { rewrite G. split; [|reflexivity]. unfold t_step in G. rewrite GS in G. destruct (forallb _ _); inversion G; subst; auto. }
+  destruct X as [-> ->].
+  destruct (string_same (t_enc t) (t_r t) (t_r t') r1 s S0 GS) as ((a & A1 & A2) & (b & B1 & B2)).
+  split.
+  - destruct (t_step_rel (get_string (t_enc t)) (skip_string_marker (t_enc t)) t t' H) as [R1 R2].
+    { rewrite GS, A1. exact A2. }
+    rewrite G in R1, R2. cbn [fst snd] in *. rewrite GS, A1 in R2. cbn [snd] in R2.
+    destruct (t_step (skip_string_marker (t_enc t)) t') as [tt1 y]. cbn [fst snd] in *.
+    exists tt1. split; [|exact R1]. destruct R2 as [[_ ->]|[C _]]; [reflexivity|discriminate].
+  - destruct (t_step_rel (get_string (t_enc t)) (skip_string (t_enc t)) t t' H) as [R1 R2].
+    { rewrite GS, B1. exact B2. }
+    rewrite G in R1, R2. cbn [fst snd] in *. rewrite GS, B1 in R2. cbn [snd] in R2.
+    destruct (t_step (skip_string (t_enc t)) t') as [tt1 y]. cbn [fst snd] in *.
+    exists tt1. split; [|exact R1]. destruct R2 as [[_ ->]|[C _]]; [reflexivity|discriminate].
+Qed.
+
+Lemma t_int_rel t t' t1 n : tsame t t' -> t_get_int t = (t1, MOk n) ->
+  exists t1', t_get_int t' = (t1', MOk n) /\ tsame t1 t1'.
+Proof.
+  intros H G. pose proof H as (S0 & _). unfold t_get_int in *.
+  destruct (get_int_cong _ _ S0) as [C1 C2].
+  destruct (t_step_rel get_int get_int t t' H C1) as [R1 R2].
+  rewrite G in R1, R2. cbn [fst snd] in *.
+  destruct (t_step get_int t') as [tt1 y]. cbn [fst snd] in *. exists tt1. split; [|exact R1].
+  destruct R2 as [[Ra Rb]|[C _]]; [|discriminate]. rewrite Rb, <- C2, <- Ra. reflexivity.
+Qed.
+
+Lemma tsame_prepare t t' : tsame t t' -> tsame (t_prepare t) (t_prepare t').
+Proof. intros (S0 & T & K & E & V). unfold t_prepare. repeat split; cbn; try apply S0; try assumption; rewrite K, E; reflexivity. Qed.
+Lemma tsame_restore t t' : tsame t t' -> tsame (t_restore t) (t_restore t').
+Proof. intros (S0 & T & K & E & V). unfold t_restore. repeat split; cbn; try apply S0; assumption. Qed.
+
+Lemma t_secret_rel t t' t1 s : tsame t t' -> t_get_secret t = (t1, MOk s) ->
+  exists t1', t_skip_secret t' = (t1', MOk tt) /\ tsame t1 t1'.
+Proof.
+  intros H G. unfold t_get_secret, t_skip_secret in *.
+  destruct (t_get_string (t_prepare t)) as [ta x] eqn:GS. inversion G; subst t1 x. clear G.
+  destruct (t_string_rel _ _ _ _ (tsame_prepare _ _ H) GS) as (_ & (b & B1 & B2)).
+  rewrite B1. eexists. split; [reflexivity|]. apply tsame_restore. exact B2.
+Qed.
+
+Lemma t_finished_cong t t' : tsame t t' -> t_finished t = t_finished t'.
+Proof. intros ((A1 & _ & _ & A4) & _). unfold t_finished. rewrite A1, A4. reflexivity. Qed.
+
+Lemma exprs_rel n : forall t t' acc l t1, tsame t t' ->
+  get_exprs (fun _ => true) true n t acc = (t1, MOk l) ->
+  exists t1', skip_exprs n t' = (t1', MOk tt) /\ tsame t1 t1'.
+Proof.
+  induction n as [|n IH]; intros t t' acc l t1 H G; cbn [get_exprs skip_exprs] in *.
+  - inversion G; subst. exists t'. auto.
+  - rewrite <- (t_finished_cong _ _ H). destruct (t_finished t); cbn [andb] in G; [discriminate|].
+    destruct (t_get_string t) as [ta [s| |]] eqn:GS; try discriminate.
+    destruct (t_string_rel _ _ _ _ H GS) as ((a & A1 & A2) & _). rewrite A1.
+    destruct (bytes_eqb s secret_marker).
+    + destruct (t_get_secret ta) as [tb [s2| |]] eqn:GX; try discriminate.
+      destruct (t_secret_rel _ _ _ _ A2 GX) as (b & B1 & B2). rewrite B1.
+      apply (IH tb b (s2 :: acc) l t1 B2 G).
+    + apply (IH ta a (s :: acc) l t1 A2 G).
+Qed.
+
+(* EVERY stream state, ANY bytes, ANY framing: whenever GetClassAdRaw succeeds, SkipClassAdRaw
+   succeeds and leaves the same bytes unread, the same frames (and their modes) still to come and
+   the same stream flags *)
+Lemma all_same_bytes t x t1 :
+  get_ad_raw t = (t1, MOk x) -> exists t1', skip_ad t = (t1', MOk tt) /\ tsame t1 t1'.
+Proof.
+  intro G. unfold get_ad_raw, get_ad_gen in G. unfold skip_ad.
+  destruct (t_get_int t) as [ta [n| |]] eqn:GI; try discriminate.
+  destruct (get_exprs (fun _ => true) true (Z.to_nat n) ta []) as [tb [es| |]] eqn:GE; try discriminate.
+  destruct (exprs_rel _ _ _ _ _ _ (tsame_refl ta) GE) as (b & B1 & B2). rewrite B1.
+  unfold get_types in G. cbn [andb] in G.
+  destruct (t_get_string tb) as [tc [my| |]] eqn:G1; try discriminate.
+  destruct (t_string_rel _ _ _ _ B2 G1) as (_ & (c & C1 & C2)). rewrite C1.
+  destruct (negb (lenN my =? 0) && negb (is_type_name my)); [discriminate|].
+  destruct (t_get_string tc) as [td [tg| |]] eqn:G2; try discriminate.
+  destruct (t_string_rel _ _ _ _ C2 G2) as (_ & (d & D1 & D2)). rewrite D1.
+  destruct (negb (lenN tg =? 0) && negb (is_type_name tg)); [discriminate|].
+  inversion G; subst. exists d. auto.
+Qed.
